@@ -53,6 +53,7 @@ type Config struct {
 	SampleCap     int
 	Trace         bool
 	Thorough      bool
+	ReportBudget  bool // paths that exhaust the step budget become candidates (kind "budget") to be replayed natively under a wall-clock cap
 }
 
 type PathSample struct {
@@ -606,6 +607,13 @@ func (e *Engine) runPath(prefix []dec) {
 	}()
 
 	switch kind {
+	case "unsupported":
+		if e.cfg.ReportBudget && strings.HasPrefix(msg, "step budget") {
+			r, m := e.query(nil, true, e.cfg.AssertTimeMs)
+			if r == "sat" {
+				e.report("budget", "step budget exhausted (possible non-termination)", m, i.where())
+			}
+		}
 	case "panic":
 		r, m := e.query(nil, true, e.cfg.AssertTimeMs)
 		if r != "unsat" {
